@@ -177,6 +177,7 @@ fn parse_instrs(t: &str) -> Vec<DecodedInstr> {
 pub fn exec(case: &str) -> String {
   let f: Vec<&str> = case.split('\t').collect();
   match f[0] {
+    "cdec" => crate::c06::const_dump(&String::from_utf8(unhex(f[1])).unwrap_or_default()),
     "crc" => format!("{:08x}", crc32fast::hash(&unhex(f[1]))),
     "dmg" => load_obs(&mutate(&unhex(f[1]), f[2])),
     "sweep" => {
@@ -394,6 +395,17 @@ pub fn generate(seed: u64, thorough: bool, sink: &mut Sink) -> Vec<String> {
   cases.push("instrs\tR:0".into());
   cases.push("instrs\tC:1:2;R:7".into());
   cases.push("instrs\tR:7;C:1:2".into());
+  // 6. the constants of compiled programs as the loader decodes them (scalars of every kind with parts that differ,
+  // strings of every byte length, matrices, sets, tables): decoded value against the bytes written for it
+  {
+    let srcs = crate::c06::constant_sources(seed, thorough);
+    let n = if thorough { srcs.len() } else { 500.min(srcs.len()) };
+    let step = (srcs.len() / n.max(1)).max(1);
+    for s in srcs.iter().step_by(step).take(n) { cases.push(format!("cdec\t{}", hexs(s))); sink.hit("constants-decoded"); }
+    for s in ["x := 1+2i", "x := 3-4i", "x := 2/3", "x := [1+2i 3+5i]", "x := 7i8", "x<i8> := -7", "x<u128> := 9", "x<f32> := 2.5", "x := \"héllo\"", "x := [1/2 3/4]", "x := true"] {
+      cases.push(format!("cdec\t{}", hexs(s))); sink.hit("constants-decoded");
+    }
+  }
   sink.sample(cases[25].clone());
   sink.sample(cases[cases.len() - 1].clone());
   cases
